@@ -84,7 +84,7 @@ def run(eng, p):
             status = bench.run(max_steps=p["steps"])
     except Exception as e:
         eng.notes["outcome"] = {"exc": str(e)}
-        eng.fail("exception %s: %s" % (type(e).__name__, e), regions=regs, detail=traceback.format_exc(limit=-5))
+        eng.fail("exception %s: %s" % (type(e).__name__, e), detail=traceback.format_exc(limit=-5))
         return
     values = {n: bench.comps[n].current_value for n in inst.var_names()}
     eng.notes["outcome"] = {"status": status, "values": values, "optimum": star, "steps": bench.steps}
